@@ -1,6 +1,6 @@
 (* Proofs about the json! macro model (JsonMacro.v). *)
 From Coq Require Import Lia.
-From Hv Require Import Prelude Json JsonMacro.
+From Hv Require Import Prelude TablesJson Json JsonSpec JsonProofs JsonMacro.
 Open Scope N_scope.
 
 Scheme Lit_min := Minimality for Lit Sort Prop
@@ -373,3 +373,138 @@ Section MacroProofs.
     - discriminate.
   Qed.
 End MacroProofs.
+
+(* ------------------------------------------------------------------------------------------------ *)
+(* the equivalent RFC 8259 text of a literal denotes the same value (tie to C13) *)
+Section RenderProofs.
+  Variable F : Type.
+  Variable fparse : str -> option F.
+  Variable fdisplay : F -> str.
+  Variable ffinite : F -> Prop.
+  Hypothesis display_is_number : forall x, ffinite x -> JNumber (fdisplay x).
+  Hypothesis parse_display : forall x, ffinite x -> fparse (fdisplay x) = Some x.
+
+  Notation tt := (tt F).
+  Notation value := (value F).
+  Notation JV := (JValue F fparse false).
+  Notation JE := (JElems F fparse false).
+  Notation JM := (JMembers F fparse false).
+  Notation render := (render F fdisplay).
+  Notation ser := (serialisable F ffinite).
+
+  Definition render_elems : list tt -> str :=
+    fix elems (l : list tt) : str :=
+      match l with
+      | [] => []
+      | x :: r =>
+        render x ++
+        match r with
+        | TComma :: r' => match r' with [] => [] | _ :: _ => ch_comma :: elems r' end
+        | _ => []
+        end
+      end.
+
+  Definition render_members : list tt -> str :=
+    fix members (l : list tt) : str :=
+      match l with
+      | TExpr _ (Some k) :: TColon :: x :: r =>
+        string_to_string k ++ [ch_colon] ++ render x ++
+        match r with
+        | TComma :: r' => match r' with [] => [] | _ :: _ => ch_comma :: members r' end
+        | _ => []
+        end
+      | _ => []
+      end.
+
+  Lemma render_bracket (l : list tt) : render (TBracket l) = ch_lbrack :: render_elems l ++ [ch_rbrack].
+  Proof. reflexivity. Qed.
+  Lemma render_brace (l : list tt) : render (TBrace l) = ch_lbrace :: render_members l ++ [ch_rbrace].
+  Proof. reflexivity. Qed.
+
+  Lemma elems_nil_inv (l : list tt) : LitElems F l [] -> l = [].
+  Proof. intro H. inversion H. reflexivity. Qed.
+  Lemma elems_nonempty (x : tt) (r : list tt) (vs : list value) : LitElems F (x :: r) vs -> vs <> [].
+  Proof. intro H. inversion H; discriminate. Qed.
+  Lemma members_nil_inv (l : list tt) : LitMembers F l [] -> l = [].
+  Proof. intro H. inversion H. reflexivity. Qed.
+  Lemma members_nonempty (x : tt) (r : list tt) (ms : list (str * value)) : LitMembers F (x :: r) ms -> ms <> [].
+  Proof. intro H. inversion H; discriminate. Qed.
+  Lemma elems_of_nil (vs : list value) : LitElems F [] vs -> vs = [].
+  Proof. intro H. inversion H. reflexivity. Qed.
+  Lemma members_of_nil (ms : list (str * value)) : LitMembers F [] ms -> ms = [].
+  Proof. intro H. inversion H. reflexivity. Qed.
+
+  Lemma member_text (k : str) (t rest : str) :
+    string_to_string k ++ [ch_colon] ++ t ++ rest =
+    [] ++ 0x22 :: flat_map esc_char k ++ 0x22 :: [] ++ 0x3a :: [] ++ t ++ rest.
+  Proof. unfold string_to_string, ch_dq, ch_colon. cbn [app]. rewrite <- !app_assoc. reflexivity. Qed.
+
+  Lemma render_all :
+    (forall t v, Lit F t v -> ser v -> JV (render t) v) /\
+    (forall l vs, LitElems F l vs -> Forall ser vs -> vs <> [] -> JE (render_elems l) vs) /\
+    (forall l ms, LitMembers F l ms -> Forall (fun kv => str_ok (fst kv) /\ ser (snd kv)) ms -> ms <> [] ->
+                  JM (render_members l) ms).
+  Proof.
+    apply Lit_mutind.
+    - intros _. constructor.
+    - intros v k Hs. apply (serialize_value_valid F fparse fdisplay ffinite display_is_number parse_display). exact Hs.
+    - intros l vs Hl IH Hs. rewrite render_bracket. apply (serialisable_arr F ffinite) in Hs.
+      destruct vs as [|v0 vs'].
+      + apply elems_nil_inv in Hl. subst l. apply (jv_array_empty F fparse false []). constructor.
+      + apply jv_array. apply IH; [exact Hs|discriminate].
+    - intros l ms Hl IH Hs. rewrite render_brace. apply (serialisable_obj F ffinite) in Hs.
+      destruct ms as [|m0 ms'].
+      + apply members_nil_inv in Hl. subst l. apply (jv_object_empty F fparse false []). constructor.
+      + apply jv_object. apply IH; [exact Hs|discriminate].
+    - intros _ H. congruence.
+    - intros t v _ IH Hs _. inversion Hs; subst.
+      cbn [render_elems]. rewrite app_nil_r.
+      replace (render t) with ([] ++ render t ++ []) by (cbn [app]; apply app_nil_r).
+      apply je_last; [constructor|apply IH; assumption|constructor].
+    - intros t v r vs _ IHt Hr IHr Hs _. inversion Hs as [|? ? Hv Hvs]; subst.
+      destruct r as [|x r'].
+      + apply elems_of_nil in Hr. subst vs. cbn [render_elems]. rewrite app_nil_r.
+        replace (render t) with ([] ++ render t ++ []) by (cbn [app]; apply app_nil_r).
+        apply je_last; [constructor|apply IHt; assumption|constructor].
+      + change (render_elems (t :: TComma :: x :: r')) with (render t ++ ch_comma :: render_elems (x :: r')).
+        replace (render t ++ ch_comma :: render_elems (x :: r'))
+          with ([] ++ render t ++ [] ++ 0x2c :: render_elems (x :: r')) by reflexivity.
+        apply je_cons; [constructor|apply IHt; assumption|constructor|].
+        apply IHr; [exact Hvs|eapply elems_nonempty; exact Hr].
+    - intros _ H. congruence.
+    - intros kv k t v _ IH Hs _. inversion Hs as [|? ? [Hk Hv] _]; subst. cbn [fst snd] in Hk, Hv.
+      cbn [render_members]. rewrite app_nil_r.
+      replace (string_to_string k ++ [ch_colon] ++ render t) with (string_to_string k ++ [ch_colon] ++ render t ++ [])
+        by (rewrite app_nil_r; reflexivity).
+      rewrite member_text.
+      apply jm_last; try constructor; [apply string_body_valid; exact Hk|apply IH; exact Hv].
+    - intros kv k t v r ms _ IHt Hr IHr Hs _. inversion Hs as [|? ? [Hk Hv] Hms]; subst. cbn [fst snd] in Hk, Hv.
+      destruct r as [|x r'].
+      + apply members_of_nil in Hr. subst ms. cbn [render_members]. rewrite app_nil_r.
+        replace (string_to_string k ++ [ch_colon] ++ render t) with (string_to_string k ++ [ch_colon] ++ render t ++ [])
+          by (rewrite app_nil_r; reflexivity).
+        rewrite member_text.
+        apply jm_last; try constructor; [apply string_body_valid; exact Hk|apply IHt; exact Hv].
+      + change (render_members (TExpr kv (Some k) :: TColon :: t :: TComma :: x :: r'))
+          with (string_to_string k ++ [ch_colon] ++ render t ++ ch_comma :: render_members (x :: r')).
+        rewrite member_text.
+        replace (render t ++ ch_comma :: render_members (x :: r'))
+          with (render t ++ [] ++ 0x2c :: render_members (x :: r')) by reflexivity.
+        apply jm_cons; try constructor; [apply string_body_valid; exact Hk|apply IHt; exact Hv|].
+        apply IHr; [exact Hms|eapply members_nonempty; exact Hr].
+  Qed.
+
+  (* the equivalent text of a literal is an RFC 8259 JSON text denoting the literal's value *)
+  Theorem render_text (t : tt) (v : value) : Lit F t v -> ser v -> JText fparse (render t) v.
+  Proof.
+    intros Hl Hs.
+    apply (JValue_JText F fparse). apply (proj1 render_all); assumption.
+  Qed.
+
+  (* ... so Value::parse of that text returns what the macro evaluates to *)
+  Theorem macro_equals_parse (t : tt) (v : value) :
+    Lit F t v -> ser v -> depth v <= MAX_DEPTH -> parse fparse (render t) = json_macro F false [t].
+  Proof.
+    intros Hl Hs Hd. rewrite (macro_sound F t v Hl). apply parse_complete; [apply render_text; assumption|exact Hd].
+  Qed.
+End RenderProofs.
